@@ -60,7 +60,7 @@ def correspond(ctx):
     t0 = time.time()
     strength = "thorough" if ctx.tier == "thorough" else "quick"
     both = ctx.run_impl("c03_impl.py", {"mode": "both", "strength": strength,
-                                        "budget": 45 if strength == "quick" else 1e9}, timeout=5400)
+                                        "budget": 30 if strength == "quick" else 1e9}, timeout=5400)
     ctx.note("implementation process wall %.0fs" % (time.time() - t0))
     if both is None:
         return
